@@ -241,6 +241,34 @@ type UserID { y: Int }
 type Line_Total { x: Int }
 type LineTotal { y: Int }
 `}})
+	// federation with explicit_requires and several entities that have @requires fields: one populator per such entity
+	// in federation.requires.go, collected in a map before they are written
+	{
+		var b strings.Builder
+		b.WriteString("extend schema @link(url: \"https://specs.apollo.dev/federation/v2.7\", import: [\"@key\", \"@requires\", \"@external\"])\n\ntype Query { ping: String! }\ntype Account @key(fields: \"id\") { id: ID! email: String! }\n")
+		for _, e := range []string{"Asteroid", "Comet", "Moon", "Planet", "Star", "Nebula", "Quasar"} {
+			fmt.Fprintf(&b, "type %s @key(fields: \"name\") { name: String! diameter: Int! @external size: Int! @requires(fields: \"diameter\") }\n", e)
+		}
+		projects = append(projects, projectSpec{Name: "federation-explicit-requires", Config: `schema:
+  - "*.graphqls"
+exec:
+  filename: graph/generated.go
+  package: graph
+federation:
+  filename: graph/federation.go
+  package: graph
+  version: 2
+  options:
+    explicit_requires: true
+model:
+  filename: graph/model/models_gen.go
+  package: model
+resolver:
+  layout: follow-schema
+  dir: graph
+  package: graph
+`, Schema: map[string]string{"planets.graphqls": b.String()}})
+	}
 	pr := r.Fork(1)
 	for i := 0; i < n; i++ {
 		s, _ := c17.Generate(pr)
@@ -302,7 +330,7 @@ type LineTotal { y: Int }
 			}
 			// projects whose output hinges on what happens before anything is sorted: more fresh processes (a map's
 			// iteration order takes only a few distinct values for a small map, so two runs agree by chance too often)
-			if strings.HasPrefix(p.Name, "colliding") || strings.HasPrefix(p.Name, "same-basename") {
+			if strings.HasPrefix(p.Name, "colliding") || strings.HasPrefix(p.Name, "same-basename") || strings.HasPrefix(p.Name, "federation") {
 				for k := 0; k < 6; k++ {
 					dirC := filepath.Join(root, fmt.Sprintf("p%dc%d", pi, k))
 					if err := writeProject(dirC, p); err != nil {
